@@ -158,9 +158,11 @@ fn real_main(cli: &Cli) -> Result<ExitCode, Error> {
                     .prefix("jaq")
                     .tempfile_in(location)?;
 
+                // a file without any output does not change what the last output was
                 last = run(runner, &filter, vars.clone(), inputs, |output| {
                     write(tmp.as_file_mut(), writer, &output)
-                })?;
+                })?
+                .or(last);
 
                 // replace the input file with the temporary file
                 std::mem::drop(bytes);
@@ -172,7 +174,8 @@ fn real_main(cli: &Cli) -> Result<ExitCode, Error> {
                     run(runner, &filter, vars.clone(), inputs, |v| {
                         write(out, writer, &v)
                     })
-                })?;
+                })?
+                .or(last);
             }
         }
         last
